@@ -130,6 +130,9 @@ func run(c Sx) Result {
 	if AsInt(l[0]) == 9 {
 		return runFreezer(c)
 	}
+	if AsInt(l[0]) == 8 {
+		return runTornMeta(c)
+	}
 	isSnappy := AsBool(l[0])
 	maxsz := uint32(AsU64(l[1]))
 	ops := AsList(l[2])
@@ -665,6 +668,9 @@ func gen(r *Rng, tier string, emit func(c Sx)) {
 	for i := 0; i < nh; i++ {
 		emit(genFreezerCase(r.Fork()))
 	}
+	for i := 0; i < nh/5; i++ {
+		emit(genTornMeta(r.Fork()))
+	}
 }
 
 func main() {
@@ -677,7 +683,9 @@ func main() {
 			"Non-trivial = at least one cut falls strictly between the durable and the current length of a file. " +
 			"A second stream (kind 9, Go oracle only, no Coq model) runs ModifyAncients/SyncAncient/TruncateTail/TruncateHead histories on a Freezer with 2-3 tables " +
 			"in one tail group and reopens it from cross-table crash states (each table as on disk, or as at the last SyncAncient when that is still a possible state); " +
-			"non-trivial there = the tables' index lengths differ in the crash state.",
+			"non-trivial there = the tables' index lengths differ in the crash state. " +
+			"A third stream (kind 8, Go oracle only) tears the metadata file: 130-400 one-byte items, Sync, truncateTail (in-place rewrite without fsync), then t.meta = the written record cut to " +
+			"every length between the fsynced record's length and its own, with and without zero fill; non-trivial there = the record length changed.",
 		Gen: gen,
 		Run: run,
 	})
